@@ -41,6 +41,26 @@ def build(rng):
         data = bytes((i * 31 + j) & 0xFF for j in range(size))
         members.append((kind, name, data))
     expected = {}
+    r2 = random.Random(repr(members))  # private generator: the main stream (all other generated archives) stays as it was
+    if not visor and r2.random() < 0.5:
+        # plain POSIX ustar archive whose members use the prefix field (bytes 345..499 of the header) up to its last byte: bytes 496..499,
+        # where a visor header keeps its data offset, are then ordinary path characters
+        bio = io.BytesIO()
+        mem2 = []
+        with tarfile.open(fileobj=bio, mode="w", format=tarfile.USTAR_FORMAT) as t:
+            for i, k in enumerate(r2.sample([120, 150, 151, 152, 153, 154, 155], r2.randint(2, 5))):
+                name = "p" * k + "/f%d.bin" % i  # prefix of exactly k characters (the only place the path can be split)
+                data = bytes((i * 17 + j) & 0xFF for j in range(r2.choice([0, 1, 512, 700])))
+                ti = tarfile.TarInfo(name)
+                ti.size = len(data)
+                t.addfile(ti, io.BytesIO(data))
+                expected[name] = data
+                mem2.append(("file", name, len(data)))
+            ti = tarfile.TarInfo("tail.txt")
+            ti.size = 3
+            t.addfile(ti, io.BytesIO(b"end"))
+            expected["tail.txt"] = b"end"
+        return bio.getvalue(), expected, {"visor": False, "format": "ustar", "members": mem2}
     if not visor:
         bio = io.BytesIO()
         with tarfile.open(fileobj=bio, mode="w", format=tarfile.GNU_FORMAT) as t:
